@@ -282,7 +282,9 @@ fn c08_orchestration_b8() {
     let n_bad = bad.count_ones();
     let first_bad = bad.trailing_zeros() as u8; // 16 if none
     // number of fields a stage needs
-    let need = |st: u8| -> usize { (stage_field(st) + 1) as usize };
+    // number of fields that must be present before a stage runs (the board validators run after the
+    // side field has been parsed)
+    let need = |st: u8| -> usize { [1usize, 2, 2, 2, 3, 3, 4, 4, 5, 5, 6, 6, 7, 7, 7, 7][(st & 15) as usize] };
     match r {
         Ok(_) => {
             // a board only for exactly six fields with every stage succeeding
